@@ -231,14 +231,19 @@ class DifferentiationMapper(pymbolic.mapper.RecursiveMapper,
             raise ValueError("cannot differentiate 'If' nodes unless "
                     "allowed_nonsmoothness is set to 'discontinuous'")
 
-        return type(expr)(
-                expr.condition,
-                self.rec(expr.then, *args),
-                self.rec(expr.else_, *args))
+        dthen = self.rec(expr.then, *args)
+        delse = self.rec(expr.else_, *args)
+        if primitives.is_zero(dthen) and primitives.is_zero(delse):
+            return 0
+        return type(expr)(expr.condition, dthen, delse)
 
     def map_common_subexpression_uncached(self, expr, *args):
+        dchild = self.rec(expr.child, *args)
+        if primitives.is_zero(dchild):
+            # keep the zero-derivative short cuts of the callers working
+            return 0
         return type(expr)(
-                self.rec(expr.child, *args),
+                dchild,
                 expr.prefix,
                 expr.scope)
 
